@@ -109,3 +109,91 @@ def interval_reaching_outside_is_refused_or_clipped(n: int, h0: float, h1: float
     cover("returned")
     assert zl <= H and zu >= 0, "something is reported only when the interval touches the assembly"
     check_partition(blocks, hs, n, res, zl, zu, H)
+
+
+# ----------------------------------------------------------------------------- z-coordinates from block heights
+def raw_assembly(n, hs, junk):
+    """n blocks with the given heights whose zbottom / ztop / z parameters are STALE (arbitrary values) and no grid yet"""
+    blocks = [blk(hs[k], junk[k], junk[k + 1], junk[k + 2]) for k in range(n)]
+    a = new(HexAssembly, _children=blocks, p=new(PMap, assemNum=7), name="A", parent=None, spatialGrid=None, spatialLocator=None)
+    for b in blocks:
+        b.parent = a
+    return a, blocks
+
+
+def no_flags_is_not_fuel(self):
+    """contract of ArmiObject.isFuel for the blocks of this harness (p.flags unset): hasFlags(FUEL) is False.
+    (Flags are bit masks - outside the engine's integer subset.)"""
+    return False
+
+
+@lemma(gen=dict(HGEN), stubs={"armi.reactor.composites:ArmiObject.isFuel": "no_flags_is_not_fuel"})
+def z_coordinates_are_contiguous_from_zero(n: int, h0: float, h1: float, h2: float, h3: float, j0: float, j1: float, j2: float, j3: float, j4: float,
+                                           j5: float):
+    """reestablishBlockOrder + calculateZCoords on n = 1..4 blocks (enumerated) of any positive heights, whatever the
+    stale elevations were: first bottom 0, each bottom = top of the block below, top - bottom = height, z = midpoint,
+    last top = getTotalHeight() = sum of heights; the REAL AxialGrid's bounds are those elevations and block k sits
+    at (0, 0, k) of it with its centre at p.z; getAxialMesh / getElevationBoundariesByBlockType agree.
+    Stub: ArmiObject.isFuel (only read by getAxialMesh for its zeroAtFuel option, which is not used here)."""
+    n = choose(n, 1, 4)
+    hs = [h0, h1, h2, h3]
+    assume(h0 > 0 and h1 > 0 and h2 > 0 and h3 > 0)
+    a, blocks = raw_assembly(n, hs, [j0, j1, j2, j3, j4, j5])
+    a.reestablishBlockOrder()
+    # the new grid has one cell per block, belongs to the assembly, and the blocks are placed and named in order
+    assert len(a.spatialGrid._bounds[2]) == n + 1 and same(a.spatialGrid.armiObject, a) and a.spatialGrid.isAxialOnly
+    for k in range(n):
+        assert blocks[k].spatialLocator.getCompleteIndices() == (0, 0, k) and same(blocks[k].spatialLocator.grid, a.spatialGrid)
+        assert blocks[k].name == "B0007-00" + str(k)
+    a.calculateZCoords()
+    assert eq(blocks[0].p.zbottom, 0.0), "the first block starts at 0"
+    total = 0.0
+    for k in range(n):
+        b = blocks[k]
+        if k > 0:
+            assert eq(b.p.zbottom, blocks[k - 1].p.ztop), "each block's bottom is the top of the one below"
+        assert eq(b.p.ztop - b.p.zbottom, hs[k]) and b.p.ztop > b.p.zbottom, "top - bottom = height > 0"
+        assert eq(b.p.z, (b.p.zbottom + b.p.ztop) / 2.0), "z is the midpoint"
+        total = total + hs[k]
+        # the axial grid: bounds equal the elevations, locator (0, 0, k), cell centre = p.z
+        assert same(b.spatialLocator.grid, a.spatialGrid)
+        assert b.spatialLocator.getCompleteIndices() == (0, 0, k)
+        assert eq(a.spatialGrid._bounds[2][k], b.p.zbottom) and eq(a.spatialGrid._bounds[2][k + 1], b.p.ztop), "grid bounds equal the elevations"
+        assert eq(b.spatialLocator.getLocalCoordinates()[2], b.p.z), "the block's grid cell is centred at p.z"
+    assert len(a.spatialGrid._bounds[2]) == n + 1
+    assert eq(blocks[n - 1].p.ztop, total), "the last top is the sum of the heights"
+    assert eq(a.getTotalHeight(), total) and eq(a.getHeight(), total), "... which is the total height"
+    mesh = a.getAxialMesh()
+    centers = a.getAxialMesh(centers=True)
+    bnd = a.getElevationBoundariesByBlockType()
+    assert len(mesh) == n and len(centers) == n and len(bnd) == 2 * n
+    for k in range(n):
+        assert eq(mesh[k], blocks[k].p.ztop) and eq(centers[k], blocks[k].p.z)
+        assert eq(bnd[2 * k], blocks[k].p.zbottom) and eq(bnd[2 * k + 1], blocks[k].p.ztop), "boundary pairs (bottom, top) per block"
+
+
+@lemma(gen=dict(HGEN, z=(-5.0, 200.0)))
+def block_at_elevation_contains_the_elevation(n: int, h0: float, h1: float, h2: float, h3: float, z: float):
+    """getBlockAtElevation(z), n = 1..4 blocks (enumerated), any heights and any z: the block returned is the one with
+    zbottom < z <= ztop - or the one just below when z exceeds its top by less than 1e-10 x z (the tolerance of the
+    code, which makes 'the exact top belongs to the block' robust); None exactly when z is not inside the assembly
+    (z <= 0 or z beyond the top by at least that tolerance)."""
+    n = choose(n, 1, 4)
+    hs = [h0, h1, h2, h3]
+    assume(h0 > 0 and h1 > 0 and h2 > 0 and h3 > 0)
+    a, blocks, H = stacked(n, hs)
+    r = a.getBlockAtElevation(z)
+    if is_none(r):
+        assert z <= 0 or z > H, "an elevation inside the assembly always has a block"
+        assert z <= 0 or z - H >= 1e-10 * z
+        return
+    assert 0 < z and z - H < 1e-10 * z, "no block for an elevation outside the assembly"
+    found = 0
+    for k in range(n):
+        if same(r, blocks[k]):
+            found = found + 1
+            assert blocks[k].p.zbottom < z, "the block starts below the elevation"
+            assert z <= blocks[k].p.ztop or z - blocks[k].p.ztop < 1e-10 * z, "and reaches it (up to 1e-10 relative)"
+            if k > 0:
+                assert z > blocks[k - 1].p.ztop, "and it is the lowest such block: the exact top belongs to the block below"
+    assert found == 1
